@@ -86,7 +86,11 @@ def offset_class(rng, n):
     """an offset drawn from the classes: magic / header / size-or-trailer field / payload / last byte"""
     if n <= 0:
         return 0
-    c = rng.randrange(6)
+    c = rng.randrange(8)
+    if c == 6:
+        return rng.randrange(n // 4, max(n // 4 + 1, 3 * n // 4))      # well inside the payload
+    if c == 7:
+        return max(0, n - 1 - rng.randrange(0, min(n, 12000)))           # before an archive's trailing padding
     if c == 0:
         return rng.randrange(0, min(n, 6))
     if c == 1:
